@@ -219,8 +219,8 @@ func c10Child(c *mon.Child) {
 
 func init() {
 	Register(&mon.Spec{
-		ID:   "C10",
-		Rule: "case = (generated grammar, token string) rendered under 8 (thorough 14) spacings: none/one/many spaces, newlines, CR/LF, comments before, between and after tokens. For grammars that never name an elided type and have no Token-typed captures: accept/reject and all captured fields must be identical for every spacing under each lookahead in {0,1,2,5,MaxLookahead,unlimited} (the harness first checks with Parser.Lex that the non-elided (type,text) sequences really are equal). For grammars that name WS/Comment explicitly: result compared with the reference semantics' leaf rule (first such token before the next ordinary token). Non-trivial: an elided run lies next to a position where the reference trace abandoned an attempt (first half) / an explicitly named elided token was matched (second half). Distinct by (grammar IR, token string[, text, k]).",
+		ID:          "C10",
+		Rule:        "case = (generated grammar, token string) rendered under 8 (thorough 14) spacings: none/one/many spaces, newlines, CR/LF, comments before, between and after tokens. For grammars that never name an elided type and have no Token-typed captures: accept/reject and all captured fields must be identical for every spacing under each lookahead in {0,1,2,5,MaxLookahead,unlimited} (the harness first checks with Parser.Lex that the non-elided (type,text) sequences really are equal). For grammars that name WS/Comment explicitly: result compared with the reference semantics' leaf rule (first such token before the next ordinary token). Non-trivial: an elided run lies next to a position where the reference trace abandoned an attempt (first half) / an explicitly named elided token was matched (second half). Distinct by (grammar IR, token string[, text, k]).",
 		Assumptions: []string{"lexer.Token-typed captures are excluded (positions inherently depend on spacing)"},
 		Batches:     func(t string) int { return pick(t, 4, 16) },
 		Floor:       func(t string) int { return pick(t, 500, 10000) },
